@@ -77,6 +77,12 @@ type seqCase struct {
 	// Chunk: the stream is also decoded through this chunking (short reads,
 	// empty reads, long pauses); the File must be the same
 	Chunk *gen.Chunking `json:"chunking,omitempty"`
+	// FidShape: shape of the file_id definition the stream starts with (0:
+	// one field; 1: a zero-size field after it; 2: developer-data flag with
+	// one zero-size developer field; 3: the flag with no developer fields;
+	// 4: the flag with a 3-byte developer field; 5: big-endian; 6: on local
+	// type 9 with three more file_id fields)
+	FidShape int `json:"file_id_definition_shape,omitempty"`
 }
 
 var dstOrSrc = map[string]bool{}
@@ -126,10 +132,28 @@ func marker(g uint16) *fitmodel.FieldInfo {
 // type when the slot does not already hold that definition, then a data record.
 func build(c seqCase) *fitmodel.Stream {
 	s := &fitmodel.Stream{HeaderSize: 14, Proto: 0x20, ProfileVer: 2140}
-	s.Recs = append(s.Recs,
-		fitmodel.Rec{IsDef: true, Local: 0, Global: 0, Fields: []fitmodel.FieldDef{{Num: 0, Size: 1, Base: 0}}},
-		fitmodel.Rec{Local: 0, Raw: []byte{byte(c.FileType)}},
-	)
+	fidDef := fitmodel.Rec{IsDef: true, Local: 0, Global: 0, Fields: []fitmodel.FieldDef{{Num: 0, Size: 1, Base: 0}}}
+	fidData := fitmodel.Rec{Local: 0, Raw: []byte{byte(c.FileType)}}
+	switch c.FidShape {
+	case 1:
+		fidDef.Fields = append(fidDef.Fields, fitmodel.FieldDef{Num: 249, Size: 0, Base: 0x07})
+	case 2:
+		fidDef.HasDev = true
+		fidDef.Dev = []fitmodel.DevFieldDef{{Num: 0, Size: 0, Idx: 0}}
+	case 3:
+		fidDef.HasDev = true
+	case 4:
+		fidDef.HasDev = true
+		fidDef.Dev = []fitmodel.DevFieldDef{{Num: 7, Size: 3, Idx: 1}}
+		fidData.Raw = append(fidData.Raw, 0xD1, 0xD2, 0xD3)
+	case 5:
+		fidDef.BigEndian = true
+	case 6:
+		fidDef.Local, fidData.Local = 9, 9
+		fidDef.Fields = append(fidDef.Fields, fitmodel.FieldDef{Num: 1, Size: 2, Base: 0x84}, fitmodel.FieldDef{Num: 3, Size: 4, Base: 0x8C}, fitmodel.FieldDef{Num: 4, Size: 4, Base: 0x86})
+		fidData.Raw = append(fidData.Raw, 1, 0, 0x78, 0x56, 0x34, 0x12, 0x00, 0xCA, 0x9A, 0x3B)
+	}
+	s.Recs = append(s.Recs, fidDef, fidData)
 	type key struct {
 		g     uint16
 		be    bool
@@ -280,7 +304,7 @@ func checkSeq(rec *hx.Recorder, c seqCase) (string, bool) {
 	for _, m := range prof.HostedMsgs(fit.FileType(c.FileType)) {
 		hosted[m] = true
 	}
-	c2 := seqCase{FileType: c.FileType}
+	c2 := seqCase{FileType: c.FileType, FidShape: c.FidShape}
 	for _, it := range c.Items {
 		if hosted[it.Global] {
 			c2.Items = append(c2.Items, it)
@@ -407,6 +431,9 @@ func drawSeq(d gen.D) seqCase {
 	if d.Int(0, 3, "chunked") == 0 {
 		ch := gen.DrawChunking(d)
 		c.Chunk = &ch
+	}
+	if d.Int(0, 3, "fidshape?") == 0 {
+		c.FidShape = d.Int(1, 6, "fidshape")
 	}
 	return c
 }
@@ -616,6 +643,19 @@ func TestC03(t *testing.T) {
 					other := hosted[int(g)%len(hosted)]
 					c := seqCase{FileType: int(ft), Items: []seqItem{
 						{Global: g, Tag: 1, Local: 1, Compressed: true, TimeOffset: 7}, {Global: other, Tag: 2, Local: 2}, {Global: g, Tag: 3, Local: 1, BE: true}, {Global: g, Tag: 4, Local: 3},
+					}}
+					pairs++
+					if msg, ok := checkSeq(rec, c); !ok {
+						rec.Fail("pairs", "", msg, c)
+					}
+				}
+			}
+			// every file type with every shape of file_id definition
+			for _, ft := range prof.FileTypes {
+				hosted := prof.HostedMsgs(ft)
+				for shape := 1; shape <= 6; shape++ {
+					c := seqCase{FileType: int(ft), FidShape: shape, Items: []seqItem{
+						{Global: hosted[len(hosted)-1], Tag: 1, Local: 1}, {Global: hosted[0], Tag: 2, Local: 2}, {Global: hosted[len(hosted)-1], Tag: 3, Local: 9},
 					}}
 					pairs++
 					if msg, ok := checkSeq(rec, c); !ok {
